@@ -164,14 +164,29 @@ pub struct Stmt {
 }
 impl Stmt {
     pub fn sql(&self, s: &Schema) -> String {
+        self.sql_with(s, None, None)
+    }
+    /// the statement with an extra conjunct ANDed to its WHERE and / or HAVING clause
+    pub fn sql_with(&self, s: &Schema, extra_where: Option<&str>, extra_having: Option<&str>) -> String {
         let items: Vec<String> = self.items.iter().enumerate().map(|(i, it)| format!("{} AS x{}", it.sql(s), i)).collect();
         let mut q = format!("SELECT {} FROM {}", items.join(", "), s.table);
-        if !self.preds.is_empty() {
-            q.push_str(" WHERE ");
-            q.push_str(&self.preds.iter().map(|p| p.sql(s)).collect::<Vec<_>>().join(" AND "));
+        let mut conj: Vec<String> = self.preds.iter().map(|p| p.sql(s)).collect();
+        if let Some(w) = extra_where {
+            conj.push(w.to_string());
         }
+        if !conj.is_empty() {
+            q.push_str(" WHERE ");
+            q.push_str(&conj.join(" AND "));
+        }
+        let mut hav: Vec<String> = vec![];
         if let Some(h) = &self.having {
-            q.push_str(&format!(" HAVING {} {} {}", self.items[h.item].sql(s), h.op.sql(), Lit::I(h.lit).sql()));
+            hav.push(format!("{} {} {}", self.items[h.item].sql(s), h.op.sql(), Lit::I(h.lit).sql()));
+        }
+        if let Some(h) = extra_having {
+            hav.push(h.to_string());
+        }
+        if !hav.is_empty() {
+            q.push_str(&format!(" HAVING {}", hav.join(" AND ")));
         }
         if self.order_by {
             q.push_str(" ORDER BY x0");
@@ -934,4 +949,56 @@ pub fn num_plan(r: &mut Rng, thorough: bool) -> Vec<(usize, &'static str, &'stat
         let _ = r.next();
     }
     plan
+}
+
+
+// ---------------------------------------------------------------------------------------------
+// vacuous subquery predicates: each one is TRUE for every row / group, so "S AND <predicate>" has
+// the result of S, but its presence makes the optimizer's subquery passes rebuild the statement.
+// They need the helper tables of `load_vacuous_helpers` and a unique non-NULL column `id` in t.
+
+pub const VAC_WHERE: &[&str] = &[
+    "id IN (SELECT id FROM keep)",
+    "EXISTS (SELECT 1 FROM keep WHERE keep.id = t.id)",
+    "NOT EXISTS (SELECT 1 FROM keep WHERE 1 = 0)",
+    "id NOT IN (SELECT id FROM nonek)",
+    "id <= (SELECT MAX(id) FROM keep)",
+    "(SELECT COUNT(*) FROM nonek) = 0",
+    "EXISTS (SELECT 1 FROM one)",
+];
+pub const VAC_HAVING: &[&str] = &[
+    "EXISTS (SELECT 1 FROM one)",
+    "1 IN (SELECT x FROM one)",
+    "NOT EXISTS (SELECT 1 FROM nonek)",
+    "(SELECT COUNT(*) FROM nonek) = 0",
+    "1 NOT IN (SELECT id FROM nonek)",
+];
+
+/// schema() plus the unique non-NULL row number `id`
+pub fn schema_with_id() -> Schema {
+    let mut s = schema();
+    s.cols.push(("id".into(), Ty::Int));
+    s
+}
+
+pub fn add_ids(t: &mut Table) {
+    for (i, r) in t.rows.iter_mut().enumerate() {
+        if r.len() == 4 {
+            r.push(Lit::I(i as i64));
+        } else {
+            r[4] = Lit::I(i as i64);
+        }
+    }
+}
+
+/// keep = every id of t, nonek = empty, one = a single row
+pub fn load_vacuous_helpers(db: &mut Db, n: usize) {
+    db.must("CREATE TABLE keep (id INTEGER)");
+    db.must("CREATE TABLE nonek (id INTEGER)");
+    db.must("CREATE TABLE one (x INTEGER)");
+    db.must("INSERT INTO one VALUES (1)");
+    let ids: Vec<String> = (0..n).map(|i| format!("({})", i)).collect();
+    for chunk in ids.chunks(200) {
+        db.must(&format!("INSERT INTO keep VALUES {}", chunk.join(", ")));
+    }
 }
